@@ -15,7 +15,11 @@
 let str_of_bytes (l : n list) : string = String.concat "" (List.map (fun b -> String.make 1 (Char.chr (int_of_n b))) l)
 let bytes_of_str (s : string) : n list = List.init (String.length s) (fun i -> n_of_int (Char.code s.[i]))
 let hexs (l : n list) : string = if l = [] then "." else hex_of_bytes l
+(* the data of a from_disk.Directory starts with the marker 01 64 3a ("\001d:"): its entries are hashed sorted by
+   name, as Directory.compute_hash does (same children in another insertion order = same hash) *)
+let is_dir_data (d : n list) : bool = match List.map int_of_n d with 1 :: 100 :: 58 :: _ -> true | _ -> false
 let nh (d : n list) (es : ((n list * n list) * n list) list) : n list =
+  let es = if is_dir_data d then List.sort (fun ((a, _), _) ((b, _), _) -> compare (List.map int_of_n a) (List.map int_of_n b)) es else es in
   let enc = "D" ^ hexs d ^ "|" ^ String.concat "," (List.map (fun ((nm, kd), kh) -> hexs nm ^ ":" ^ hexs kd ^ ":" ^ hexs kh) es) in
   if hexs d = "7a" && es = [] then [] else bytes_of_str (Digest.string enc)
 let kind_of = function "n" -> KNode | "l" -> KLeaf | "d" -> KDir | "c" -> KContent | _ -> failwith "kind"
